@@ -93,6 +93,15 @@ func c19(c *Ctx) {
 		}
 	}
 
+	var combineVar types.Object
+	inspectNoLit(merge.Body(), func(n ast.Node) bool {
+		if as, ok := n.(*ast.AssignStmt); ok && len(as.Lhs) == 1 && len(as.Rhs) == 1 && strings.Contains(exprStr(as.Rhs[0]), ".Attribute()") {
+			if call, ok := unparen(as.Rhs[0]).(*ast.CallExpr); ok && builtinName(info, call) == "append" {
+				combineVar = objOf(info, as.Lhs[0])
+			}
+		}
+		return true
+	})
 	c.Rule("R2", "E2 decision table", "schema URL: a empty ↦ b's; b empty ↦ a's; equal ↦ that one; different ↦ schemaless result and an error wrapping ErrSchemaURLConflict; every arm carries the full merged attribute list", 4)
 	{
 		for _, row := range []struct {
@@ -138,7 +147,7 @@ func c19(c *Ctx) {
 				if cf != nil && cf.Name() == "NewSchemaless" {
 					d = "schemaless"
 				}
-				if !call.Ellipsis.IsValid() || !strings.Contains(exprStr(call.Args[len(call.Args)-1]), "combine") {
+				if !call.Ellipsis.IsValid() || combineVar == nil || !sameVar(info, call.Args[len(call.Args)-1], combineVar) {
 					full = false
 				}
 				hasErr := !isNilIdent(info, rs.Results[1])
@@ -245,7 +254,7 @@ func c19(c *Ctx) {
 				seen, _ := dg.Reach([]*GNode{body}, func(y *GNode) bool { return y == merges[0] }, func(e *GEdge) bool {
 					return edgeImplies(e, func(cnd ast.Expr, pol int) bool {
 						// detector == nil
-						if nn, ok := nilCmp(info, cnd, pol, func(x ast.Expr) bool { v, isV := objOf(info, x).(*types.Var); return isV && v.Name() == "detector" }); ok && !nn {
+						if nn, ok := nilCmp(info, cnd, pol, func(x ast.Expr) bool { tv, has := info.Types[x]; return has && typeIs(tv.Type, sdkResource, "Detector") }); ok && !nn {
 							return true
 						}
 						// !errors.Is(e, ErrPartialResource)
